@@ -750,7 +750,12 @@ pub fn leaf_encodings(v: &RefVal) -> Vec<(String, Vec<u8>)> {
                 res.push(("BIT_BINARY(8)".into(), o));
             }
         }
-        RefVal::Nil => res.push(("NIL".into(), vec![106])),
+        RefVal::Nil => {
+            res.push(("NIL".into(), vec![106]));
+            // non-minimal but well-formed: a list of zero elements with a NIL tail, an empty STRING_EXT
+            res.push(("LIST_EXT(0)+NIL".into(), vec![108, 0, 0, 0, 0, 106]));
+            res.push(("STRING_EXT(0)".into(), vec![107, 0, 0]));
+        }
         RefVal::ExtFun { .. } => {
             let mut o = Vec::new();
             w_term(&mut o, v);
